@@ -49,7 +49,8 @@ PROPS = {
                      "permuted by every operation (SymOrbits!ShellAllowed; on the hexagonal cell only s, p, d, pz are used). Quick: 10 replayed "
                      "structures (tetragonal, hexagonal, one cubic C3v, 2 magnetic) + 2 structures x 3 subgroups, about 14 symmetrize runs + 3 "
                      "subgroup runs + 2 runs with site-dependent frames (explicit basis_list; s, p, d only), 8 recorded structures (half with the "
-                     "subgroup of proper rotations); thorough: the whole "
+                     "subgroup of proper rotations); two structures of the class two_multi_site_blocks_permuted_differently (two species, each an orbit of "
+                     "two sites, permuted differently by some operation; SymOrbits!BlockTripleMap) in the replay and in two symmetrize runs; thorough: the whole "
                      "catalogue. FINDING (key System_R.symmetrize:mixed_centres): shells whose orbitals are mixed (not merely permuted up to sign) "
                      "by an operation of the site group of a polar site are not symmetrised exactly: centres are treated per orbital, the "
                      "Berry curvature is not covariant and a second symmetrisation moves the centres. Instances: d / eg on a site whose "
@@ -177,6 +178,9 @@ def exact_replay(rep, st, counts):
     okt, shifts = sc.private(rep, "SymmetrizerSAWF.T_list", lambda: [np.asarray(symm.T_list[b]) for b in range(len(orbits))])
     nR = len(st["rlist"])
     shift_eq = {1: True, -1: True}
+    if okm:     # two blocks of more than one site whose sites some operation permutes differently (as permutations of the listed sites)
+        counts["blocks_permuted_differently"] += int(any(len(orders[i]) > 1 and len(orders[i]) == len(orders[j]) and not np.array_equal(maps[i], maps[j])
+                                                         for i in range(len(orders)) for j in range(i)))
     for b1, ord1 in enumerate(orders):
         for isym, n in enumerate(op_of):
             exp_map = [ord1.index(st["amap"][n][k]) for k in ord1]
@@ -474,6 +478,7 @@ def symmetrize_run(rep, st, shells, soc, nprs, counts):
     mixed_class = in_mixed_class(st, shells)
     counts["hexagonal"] += int(st["lat"] == "hex" and not mixed_class)
     counts["mixed_class"] += int(mixed_class)
+    counts["two_block_runs"] += int(st["nsites"] == 4)
     judge(rep, res, kpt, mixed_class, detail)
     return res
 
@@ -696,6 +701,17 @@ def _check(rep, tier):
     if ftable.spec_violation(rep, stc, "c20_symorb_c3v"):
         return rep.finish()
     rep.add_tlc("c20_symorb_c3v", stc)
+    # class two_multi_site_blocks_permuted_differently: two species, each an orbit of two sites, permuted differently by some operation
+    stb, bstructs, _ = sc.symorb_structures(sc.uniq("c20_symorb_2blocks"), ["tetra", "hex"], [4], "twoblocks")
+    if ftable.spec_violation(rep, stb, "c20_symorb_2blocks"):
+        return rep.finish()
+    rep.add_tlc("c20_symorb_2blocks", stb)
+    if not bstructs:
+        raise MachineryError("the catalogue of two-block structures is empty")
+    stw = tlc.run_tlc("MC_SymOrbits.tla", sc.symorb_cfg(["tetra"], [4], "twoblocks", False, blockmap="row"), sc.uniq("c20_symorb_rowmap"), workers=sc.WORKERS, timeout=1500)
+    if not stw.get("violation") or stw["violation"][1] != "BlockTripleMap":
+        raise MachineryError(f"sensitivity self-test failed: taking the column site through the site map of the row block must violate BlockTripleMap, got {stw.get('violation')} {stw.get('error')}")
+    rep.part("sensitivity", column_site_through_row_block_map=stw["violation"][1])
     # sensitivity: representatives chosen w.r.t. the full group while only a subgroup is applied must leave triples unreached
     stf = tlc.run_tlc("MC_SymOrbits.tla", sc.symorb_cfg(["cubic"], [2], "c3v", False, subreps="full"), sc.uniq("c20_symorb_fullreps"), workers=sc.WORKERS, timeout=1500)
     if not stf.get("violation") or stf["violation"][1] != "SubReach":
@@ -713,11 +729,11 @@ def _check(rep, tier):
 
     # ---------------- spec -> code : index maps
     counts = dict(maps=0, rmap=0, irr=0, irr_reduced=0, irr_exactly_one=0, shift_convention={}, structures=0, magnetic=0, hexagonal=0,
-                  irr_subgroup=0, irr_subgroup_finer=0)
+                  irr_subgroup=0, irr_subgroup_finer=0, blocks_permuted_differently=0)
     if thorough:
-        sel = structs + cstructs + rng.sample(mstructs, min(len(mstructs), 40))
+        sel = structs + cstructs + bstructs + rng.sample(mstructs, min(len(mstructs), 40))
     else:
-        sel = rng.sample(ostructs, min(len(ostructs), 4)) + rng.sample(hstructs, min(len(hstructs), 3)) + cstructs[:1] + rng.sample(mstructs, min(len(mstructs), 2))
+        sel = rng.sample(ostructs, min(len(ostructs), 4)) + rng.sample(hstructs, min(len(hstructs), 3)) + cstructs[:1] + rng.sample(mstructs, min(len(mstructs), 2)) + bstructs[:1] + bstructs[-1:]
     for st in sel:
         exact_replay(rep, st, counts)
         counts["structures"] += 1
@@ -731,14 +747,14 @@ def _check(rep, tier):
         for kind in sorted(st["sub"]):
             if 1 < len(st["sub"][kind]) < len(st["ops"]):
                 subgroup_replay(rep, st, kind, counts)
-    if (counts["irr_reduced"] == 0 or counts["rmap"] == 0 or counts["irr_subgroup_finer"] == 0) and not rep.violations and "skipped_private" not in rep.parts:
+    if (counts["irr_reduced"] == 0 or counts["rmap"] == 0 or counts["irr_subgroup_finer"] == 0 or counts["blocks_permuted_differently"] == 0) and not rep.violations and "skipped_private" not in rep.parts:
         raise MachineryError(f"exact replay never met a reducible triple / a subgroup with finer orbits: {counts}")
     rep.part("exact_replay", **counts)
     rep.sample(dict(structure=sel[0]["key"], n_ops=len(sel[0]["ops"]), irreducible_triples=len(sel[0]["irr"])))
 
     # ---------------- numeric : System_R.symmetrize
     ncounts = dict(runs=0, soc=0, magnetic=0, hexagonal=0, ops_checked=0, k_skipped=0, skipped=0, no_kpoint=0, mixed_class=0, centres_checked=0,
-                   library_group_differs=0, library_check_disagrees=0, library_check_unavailable=0, subgroup_runs=0, site_frame_runs=0)
+                   library_group_differs=0, library_check_disagrees=0, library_check_unavailable=0, subgroup_runs=0, site_frame_runs=0, two_block_runs=0)
     recs = []
     maxres = {}
     plan = []
@@ -755,6 +771,10 @@ def _check(rep, tier):
         for ps in (["d"], ["t2g"], ["eg"], ["sp3"], ["s", "p"]) if thorough else (["eg"], ["t2g"]):
             if all(sh in st["shells"] for sh in ps):
                 plan.append((st, ps, False))
+    for n, st in enumerate(bstructs if thorough else [bstructs[0], bstructs[-1]]):       # two multi-site blocks permuted differently
+        plan.append((st, ["s"], n % 2 == 1))
+        if thorough and not st["mixed"]:
+            plan.append((st, ["p"], False))
     for st in (mstructs if thorough else rng.sample(mstructs, min(len(mstructs), 3))):
         ok = [ps for ps in PROJ_SETS[:5] if all(sh in st["shells"] for sh in ps)]
         plan.append((st, rng.choice(ok), True))
@@ -802,7 +822,7 @@ def _check(rep, tier):
             ncounts["skipped"] += 1
             continue
         record(st, ps, soc, out[0], subops=out[1], frames="site" if frames else "global")
-    if not rep.violations and (ncounts["runs"] == 0 or ncounts["soc"] == 0 or ncounts["magnetic"] == 0 or ncounts["runs"] == ncounts["soc"] or ncounts["hexagonal"] == 0
+    if not rep.violations and (ncounts["runs"] == 0 or ncounts["soc"] == 0 or ncounts["magnetic"] == 0 or ncounts["runs"] == ncounts["soc"] or ncounts["hexagonal"] == 0 or ncounts["two_block_runs"] == 0
                                    or (("skipped_private" not in rep.parts) and (ncounts["subgroup_runs"] == 0 or ncounts["site_frame_runs"] == 0))):
         raise MachineryError(f"symmetrize runs do not cover soc / no soc / magnetic / hexagonal / subgroup / site-dependent frames: {ncounts}")
     rep.part("numeric_only", what="System_R.symmetrize (and symmetrize2 with a subgroup via use_symmetries_index / with site-dependent local frames) on random Hermitian models: E(gk)=E(k), curvature/spin covariance for every (W, TR) of the "
